@@ -179,8 +179,10 @@ CONTRACT += '''
 //@   maypanic
 //@   modifies m.mx.held
 //@   ensures (normal || panics) ==> m.mx.held == 0
-//@   ensures panics ==> (exists p :: 0 <= p && p < len(m.order) && apppanics(fn, m.order[p], m.data[m.order[p]]))
+//@   ensures panics ==> (exists p :: 0 <= p && p < len(m.order) && apppanics(fn, m.order[p], m.data[m.order[p]]) && pv == apppv(fn, m.order[p], m.data[m.order[p]]))
+//@   ensures normal ==> (forall i :: 0 <= i && i < len(m.order) ==> !apppanics(fn, m.order[i], m.data[m.order[i]]))
 //@   loop 0 invariant -1 <= rangeindex && rangeindex < len(m.order) && m.mx.held == 1
+//@   loop 0 invariant forall i :: 0 <= i && i <= rangeindex ==> !apppanics(fn, m.order[i], m.data[m.order[i]])
 //@   loop 0 decreases len(m.order) - rangeindex
 
 //@ func (*{M}).Map(fn)
